@@ -87,6 +87,16 @@ func gen(seed int64, tier string, idx int) *pipe.Scenario {
 		DLQWindows: []int{0}, Healthy: true,
 	}
 	sc := g.Scenario(o)
+	if idx%5 == 1 {
+		// batching destinations: one response carries the acks of every write that
+		// was waiting (with a latency class, several writes pile up behind a response)
+		for i := range sc.Topo.Dests {
+			sc.Topo.Dests[i].Dst.CoalesceAcks = true
+			if len(sc.Topo.Dests[i].Dst.LatencyUs) == 0 {
+				sc.Topo.Dests[i].Dst.LatencyUs = []int{0, 50, 300}
+			}
+		}
+	}
 	// the stop request arrives at every class of instant: during start-up, mid-read,
 	// batch in flight, destination acks pending (latency), debounce timer armed, idle
 	at := 0
